@@ -239,7 +239,7 @@ theorem step_hinv_msg (s : State) (op : Op) (hS : SettleInv s) (hH : HInv s) (hn
         have hne : u ≠ v := by intro e; subst e; rw [hbn] at hb; cases hb
         exact ⟨b, by
           show getBook (setBook s (newBook u o)) v = some b
-          rw [getBook_setBook_ne _ _ _ (by show (newBook u o).uid ≠ v; exact hne)]; exact hb, KeepsParts.refl b⟩
+          rw [getBook_setBook_neSB _ _ _ (by show (newBook u o).uid ≠ v; exact hne)]; exact hb, KeepsParts.refl b⟩
   | marketUpdate tk u st en stt =>
     simp only [step, marketUpdate, commit]
     cases h : marketUpdateO s tk u st en stt with
